@@ -692,7 +692,16 @@ class Unit:
             firsts = nxt
         if pick_first and firsts:
             firsts = sorted(firsts, key=lambda n: n["span"][0])[:1]
+        before = last_rx.startswith("before:")
+        if before:
+            lrx = re.compile(last_rx[7:])
         lasts = [n for n in nodes if n["k"] == "stmt" and lrx.match(src.text(*n["span"]))]
+        if before:
+            # the slice ends with the statement that PRECEDES the matching one in the same block
+            prv = []
+            for l0 in lasts:
+                prv += [n for n in nodes if n["k"] == "stmt" and n["block"] == l0["block"] and n["idx"] == l0["idx"] - 1]
+            lasts = prv
         if len(firsts) != 1 or len(lasts) != 1 or firsts[0]["block"] != lasts[0]["block"]:
             raise Undecided(f"lost anchor: slice {key}: first matches {len(firsts)}, last matches {len(lasts)} statements")
         s0, s1 = firsts[0]["span"][0], lasts[0]["span"][1]
